@@ -41,7 +41,9 @@ def check_status_sequence(E, seq):
         E.prove(ORDER[a] < ORDER[b], 'status-forward-only', ('status went %s -> %s', a, b))
 
 
-def fam_cancel(E, real=False, with_delay=True, twice_modes=3):
+def fam_cancel(E, real=False, with_delay=True, twice_modes=3, cleanup=False):
+    # asynchronous clean-up of the victim after it saw the cancellation (k time units)
+    k = E.num('k', 0, 40, real=real) if cleanup else None
     d0 = E.num('d0', 0, 40, real=real) if with_delay else 0
     d1 = E.num('d1', 0, 40, real=real)
     d2 = E.num('d2', 0, 40, real=real)
@@ -67,6 +69,13 @@ def fam_cancel(E, real=False, with_delay=True, twice_modes=3):
             log('v', 'end')
         except CancelTask:
             log('v', 'cancel-seen')
+            if cleanup:
+                try:
+                    await (time + k)
+                    log('v', 'cleanup-done')
+                except CancelTask:
+                    log('v', 'cancel-seen-again')
+                    raise
             raise
         if fails:
             raise err
@@ -170,7 +179,7 @@ def fam_cancel(E, real=False, with_delay=True, twice_modes=3):
                     ('cancel() at %r, CancelTask seen at %r', tcancel, vseen[2]))
             E.prove(cancelled_outcome, 'awaiters-get-TaskCancelled')
             later = [x for x in log.of('v') if log.pos(x) > log.pos(vseen)]
-            E.prove(not later, 'no-payload-code-after-cancel')
+            E.prove(not later or cleanup, 'no-payload-code-after-cancel')
         else:
             E.prove(completed_in_step, 'cancel-not-lost',
                     ('cancel() at %r on a suspended task was never delivered', tcancel))
@@ -178,16 +187,30 @@ def fam_cancel(E, real=False, with_delay=True, twice_modes=3):
     if cancelled_outcome:
         exc = aw[3]
         E.prove(exc.subject is task, 'TaskCancelled-carries-task')
-        first_tok = tok1
-        E.prove(exc.args == (first_tok,), 'TaskCancelled-carries-first-token',
-                ('args %r', exc.args))
+        if cleanup and log.has('v', 'cancel-seen-again'):
+            # the payload handled the first cancellation asynchronously and was ended by the
+            # second one: the token is that of the cancellation that ended it
+            E.prove(exc.args in ((tok1,), (tok2,)), 'TaskCancelled-carries-a-cancel-token')
+        else:
+            E.prove(exc.args == (tok1,), 'TaskCancelled-carries-first-token',
+                    ('args %r', exc.args))
         E.prove(task.status is TaskState.CANCELLED, 'status-cancelled')
     elif aw[1] == 'value':
         E.prove(aw[3] == 'R' and not fails and task.status is TaskState.SUCCESS, 'status-success')
     else:
         E.prove(aw[3] is err and fails and task.status is TaskState.FAILED, 'status-failed')
-    # second cancel never changes a finished task
+    # a second cancel of a task that is still busy (cleaning up) is delivered in its time step
     c2 = log.first('c', 'cancel2')
+    if cleanup and c2 is not None and c2[4] is None and c2[3] is TaskState.RUNNING and vseen:
+        E.reach('second-cancel-during-cleanup')
+        again = log.first('v', 'cancel-seen-again')
+        cd = log.first('v', 'cleanup-done')
+        if again is not None:
+            E.prove(EQ(again[2], c2[2]), 'cancel-delivered-in-same-time-step',
+                    ('second cancel() at %r, seen at %r', c2[2], again[2]))
+        else:
+            E.prove(cd is not None and EQ(cd[2], c2[2]), 'cancel-not-lost',
+                    ('second cancel() at %r during clean-up was never delivered', c2[2]))
     if c2 is not None and c2[4] is not None:
         d2e = log.first('c', 'cancel2-done')
         E.prove(d2e[4] is c2[4], 'second-cancel-of-finished-task-does-nothing')
@@ -429,6 +452,12 @@ FAMILIES = [
            thorough=dict(with_delay=True),
            reach=['cancel-after-finish', 'cancel-before-start', 'cancel-while-suspended'],
            bounds='victim started with after=d0'),
+    Family('cancel_cleanup', fam_cancel,
+           quick=dict(with_delay=False, twice_modes=3, cleanup=True),
+           thorough=dict(with_delay=True, twice_modes=3, cleanup=True),
+           reach=['second-cancel-during-cleanup'],
+           bounds='victim with asynchronous clean-up (k time units) after CancelTask; second '
+                  'cancel e later'),
     Family('cancel_close', fam_cancel_close,
            quick=dict(),
            thorough=dict(),
